@@ -658,6 +658,11 @@ def _cli_message(output):
     return None
 
 
+# constructs that are diagnosed with a line inside an @if branch (the others are C14's no-line findings there)
+NESTABLE = ["elif-no-colon", "else-no-colon", "if-no-colon", "endif-colon", "for-no-colon", "py-no-colon",
+            "tilde-syntax", "hook-arity", "render-missing-parens", "input-missing-params"]
+
+
 def diagnostic_provenance(chk, root, g, sub_seed, rng, stats, kinds_per_position=None):
     """(d): constructs on the first line / after every include / on an inner line / at the end of every file."""
     from click.testing import CliRunner
@@ -721,13 +726,24 @@ def diagnostic_provenance(chk, root, g, sub_seed, rng, stats, kinds_per_position
             kinds = list(D.CONSTRUCTS)
             if kinds_per_position is not None and pclass != "first-line":
                 kinds = rng.sample(kinds, kinds_per_position)
-            for kind in kinds:
-                new, idx, _ctx, _alt = D.place(host, pos, kind, f["path"])
+            nested_kinds = [k_ for k_ in NESTABLE if k_ in D.CONSTRUCTS] if pclass in ("inner-line", "after-include") else []
+            for kind in kinds + [("nested", k_) for k_ in nested_kinds]:
+                if isinstance(kind, tuple):
+                    # the same construct two @if levels deep (the recursive extractor must hand the line map down)
+                    kind = kind[1]
+                    ins = D.CONSTRUCTS[kind][0]
+                    base = D.host_text(host)
+                    new = base[:pos] + ["@if True:", "    @if True:"] + ["        " + l for l in ins] + ["    @endif", "@endif"] + base[pos:]
+                    idx = pos + 2 + (D.CONSTRUCTS[kind][1] or 0)
+                    pclass_k = "nested-if:" + pclass
+                else:
+                    new, idx, _ctx, _alt = D.place(host, pos, kind, f["path"])
+                    pclass_k = pclass
                 with open(fabs, "w", encoding="utf-8", newline="") as fh:
                     fh.write("\n".join(new) + ("\n" if f["nl"] else ""))
                 try:
                     msg = compile_file_msg()
-                    pc = pclass
+                    pc = pclass_k
                     if pclass == "first-line" and f is not g["files"][0] and g["files"].index(f) in chain0:
                         pc = "combined-line-0"
                     stats["placements"] += 1
